@@ -559,6 +559,77 @@ func decGen() string {
 			k, pos.Filename[strings.LastIndex(pos.Filename, "/")+1:], recv, t.leanTy, t.leanTy, strings.Join(stages, ",\n    "))
 		names = append(names, k)
 	}
+	sb.WriteString(dispatchGen(funcs))
 	fmt.Fprintf(&sb, "def translatedDecoders : List String := [%s]\n\nend Mq.Gen\n", quoteAll(names))
+	return sb.String()
+}
+
+var leanCtor = map[string]string{
+	"Connect": "connect", "ConnAck": "connack", "Publish": "publish", "PubAck": "puback", "PubRec": "pubrec",
+	"PubRel": "pubrel", "PubComp": "pubcomp", "Subscribe": "subscribe", "SubAck": "suback", "Unsubscribe": "unsubscribe",
+	"UnsubAck": "unsuback", "PingReq": "pingreq", "PingResp": "pingresp", "Disconnect": "disconnect", "Auth": "auth",
+}
+
+// the type switch of fixedHeader.ReadRemaining: `switch byte(f.fixed) & 0b1111_0000 { case K: p = &T{fixed: f.fixed} … default: p = &Undefined{} }`
+func dispatchGen(funcs map[string]*ast.FuncDecl) string {
+	bad := func(why string) string {
+		return "def dispatch (b0 : UInt8) : Mq.Packet := (fun (_ : String) => Mq.Packet.undefined { fixed := b0 }) " + leanStr(why) + "\n\n"
+	}
+	fd := funcs["fixedHeader.ReadRemaining"]
+	if fd == nil || fd.Body == nil {
+		return bad("no fixedHeader.ReadRemaining")
+	}
+	var sw *ast.SwitchStmt
+	for _, st := range fd.Body.List {
+		if x, ok := st.(*ast.SwitchStmt); ok {
+			sw = x
+			break
+		}
+	}
+	if sw == nil || sw.Init != nil || sw.Tag == nil {
+		return bad("no switch")
+	}
+	be, ok := sw.Tag.(*ast.BinaryExpr)
+	if !ok || be.Op != token.AND || exprStr(be.X) != "byte(f.fixed)" {
+		return bad("switch tag " + srcOf(sw.Tag))
+	}
+	mask, okm := constVal(be.Y)
+	if !okm {
+		return bad("switch mask")
+	}
+	var sb strings.Builder
+	sb.WriteString("/-- the type switch of `fixedHeader.ReadRemaining` (packet.go) -/\ndef dispatch (b0 : UInt8) : Mq.Packet :=\n  ")
+	def := ""
+	for _, c := range sw.Body.List {
+		cc := c.(*ast.CaseClause)
+		if len(cc.Body) != 1 {
+			return bad("case body " + srcOf(cc))
+		}
+		as, ok := cc.Body[0].(*ast.AssignStmt)
+		if !ok || as.Tok != token.ASSIGN || exprStr(as.Lhs[0]) != "p" {
+			return bad("case body " + srcOf(cc))
+		}
+		rhs := srcOf(as.Rhs[0])
+		if cc.List == nil {
+			if rhs != "&Undefined{}" {
+				return bad("default " + rhs)
+			}
+			def = "Mq.Packet.undefined {}"
+			continue
+		}
+		if len(cc.List) != 1 {
+			return bad("case list " + srcOf(cc))
+		}
+		k, okk := constVal(cc.List[0])
+		m := regexp.MustCompile(`^&([A-Za-z]+)\{fixed: f\.fixed\}$`).FindStringSubmatch(rhs)
+		if !okk || m == nil || leanCtor[m[1]] == "" {
+			return bad("case " + srcOf(cc))
+		}
+		fmt.Fprintf(&sb, "if b0 &&& %d = %d then Mq.Packet.%s { fixed := b0 }\n  else ", mask, k, leanCtor[m[1]])
+	}
+	if def == "" {
+		return bad("no default")
+	}
+	sb.WriteString(def + "\n\n")
 	return sb.String()
 }
